@@ -74,6 +74,9 @@ def resolve_is_aggregate(values: list[bool | None]) -> bool | None:
 
 
 def format_quotes(value: Any, quote_char: str | None) -> str:
+    if quote_char and isinstance(value, str):
+        # a quote character inside the quoted text is written twice
+        value = value.replace(quote_char, quote_char * 2)
     return "{quote}{value}{quote}".format(value=value, quote=quote_char or "")
 
 
